@@ -295,6 +295,18 @@ class Ctx:
         if hits:
             allok = False
             self.broken.append("forbidden-tokens:" + "; ".join(hits[:5]))
+        if self.thorough and allok:
+            # independent re-check of the compiled module (and everything it imports) by leanchecker
+            t0 = time.time()
+            try:
+                rc, out = run(["lake", "env", "leanchecker", module], cwd=LEAN_DIR, timeout=1500)
+            except subprocess.TimeoutExpired:
+                rc, out = None, "timeout"
+            self.coverage.setdefault("leanchecker", {})[module] = {"rc": rc, "seconds": round(time.time() - t0, 1)}
+            self.checker_cmds.append(f"cd lean && lake env leanchecker {module}")
+            if rc not in (0, None):
+                allok = False
+                self.broken.append(f"leanchecker:{module}:{out[-300:]}")
         return allok
 
     # ---- finish -------------------------------------------------------------
